@@ -5,9 +5,12 @@ import glob, json, os, subprocess, sys
 HERE = os.path.dirname(os.path.dirname(os.path.abspath(__file__)))
 os.chdir(HERE)
 rows = []
+ONLY = sys.argv[1:]          # optional: labels (seed ids, or 'D14') to re-run; their rows are replaced in the existing table
 
 
 def run(label, pid, apply_cmd):
+    if ONLY and not any(o == label or ('revert ' + o + ' ') in label for o in ONLY):
+        return
     r = subprocess.run(apply_cmd, shell=True, capture_output=True, text=True)
     if r.returncode != 0:
         rows.append((label, pid, 'patch does not apply', '', '', ''))
@@ -32,6 +35,14 @@ for d in sorted(glob.glob('seeded/*/meta.json')):
 k = json.load(open('known_findings.json'))
 for fd in k['fixed_detail']:
     run('revert ' + fd['defect'] + ' (' + fd['commit'] + ')', fd['property'], 'git -C /repo show %s | git -C /repo apply -R' % fd['commit'])
+if ONLY:
+    lines = open('seeded/RESULTS.md').read().splitlines()
+    for r in rows:
+        new = '| ' + ' | '.join(str(x).replace('|', '/') for x in r) + ' |'
+        lines = [new if l.startswith('| ' + r[0] + ' |') else l for l in lines]
+    open('seeded/RESULTS.md', 'w').write('\n'.join(lines) + '\n')
+    print('\n'.join(l for l in lines if any(l.startswith('| ' + r[0] + ' |') for r in rows)))
+    sys.exit(0)
 with open('seeded/RESULTS.md', 'w') as f:
     f.write('# Checks against seeded changes and reverted fixes (written by tools/run_seeds.py)\n\n')
     f.write('| change | property | check | units with failed / lost obligations | first failed obligation | concrete witness |\n|---|---|---|---|---|---|\n')
